@@ -12,6 +12,9 @@ Requests (TAB-separated fields):
                                                 -> real | <fields> TAB <tzentry>
   unmarshall    <fields> <tzentry> <lookup: ok | ZoneInfoNotFoundError | ValueError>
                                                 -> ok TAB <fields> TAB <tz> | err:<Name>
+  roundtrip     <fields> <tz> <leap 0|1> <lookup>     (marshall, second := 60 if leap, unmarshall)
+  roundtrip_now <state> <fields of the override instant> <leap> <lookup>
+                                                -> <fields> TAB <tzentry> TAB <unmarshall reply>
 <dt>      = n:<loc> | a:<loc>:<off>         (microseconds)
 <secs>    = <num>/<den>
 <op>      = set <t> | advd <d> | advs <secs> | clear | now <0|1> | ts <0|1>
@@ -100,6 +103,15 @@ def parseLookup (s : String) : Option (Option Err) :=
 def showMarshalled (m : Marshalled) : String :=
   showFields m.f ++ "\t" ++ showTz "absent" m.tzname
 
+def showUnm : Except Err Stamp → String
+  | .ok s => "ok\t" ++ showFields s.f ++ "\t" ++ showTz "naive" s.tz
+  | .error e => "err:" ++ errName e
+
+/-- marshall, optionally put a leap second into the record, unmarshall -/
+def roundtrip (m : Marshalled) (leap : Bool) (lk : Option Err) : String :=
+  let m' : Marshalled := if leap then { m with f := { m.f with second := 60 } } else m
+  showMarshalled m ++ "\t" ++ showUnm (unmarshall (fun _ => lk) m')
+
 def handle : List String → String
   | ["norm", d] =>
     match parseDT d with
@@ -135,10 +147,19 @@ def handle : List String → String
   | ["unmarshall", f, tz, lk] =>
     match parseFields f, parseTz "absent" tz, parseLookup lk with
     | some f, some tz, some lk =>
-      match unmarshall (fun _ => lk) ⟨f, tz⟩ with
-      | .ok s => "ok\t" ++ showFields s.f ++ "\t" ++ showTz "naive" s.tz
-      | .error e => "err:" ++ errName e
+      showUnm (unmarshall (fun _ => lk) ⟨f, tz⟩)
     | _, _, _ => "bad-request"
+  | ["roundtrip", f, tz, leap, lk] =>
+    match parseFields f, parseTz "naive" tz, parseFlag leap, parseLookup lk with
+    | some f, some tz, some leap, some lk => roundtrip (marshall ⟨f, tz⟩) leap lk
+    | _, _, _, _ => "bad-request"
+  | ["roundtrip_now", st, f, leap, lk] =>
+    match optInt st, parseFields f, parseFlag leap, parseLookup lk with
+    | some st, some f, some leap, some lk =>
+      match marshallNow (fun _ => f) st none with
+      | some m => roundtrip m leap lk
+      | none => "real"
+    | _, _, _, _ => "bad-request"
   | _ => "bad-request"
 
 def main : IO Unit := serve handle
